@@ -2129,7 +2129,7 @@ def reference_text_in(proof, name):
 TRUSTED_LINE = ("loop-IR tie: the translator tools/props/_loopir.py (Python ast -> IR, fail-closed) and the IR interpreter coq/Model/LoopIR.v "
                 "(semantics of the accepted Python/numpy fragment; arrays by value, no rounding) are trusted; the IR program is regenerated from the "
                 "snapshot source on every run and evaluated exactly (QcC, zero tolerance) against the hand-written model; for LEVINSON, CORRELATION, "
-                "levup, levdown, HERMTOEP, arburg (with and without an order-selection criterion) and the psi loop of minvar `run program = model` is moreover a theorem for all inputs (Proofs/LoopIR*.v), "
+                "levup, levdown, HERMTOEP, TOEPLITZ, arburg (with and without an order-selection criterion) and the psi loop of minvar `run program = model` is moreover a theorem (for rlevinson and the two Marple recursions: argument checks and orders 0/1) for all inputs (Proofs/LoopIR*.v), "
                 "claimed only while the regenerated program text is the one the proof is about (compared on every run, reflexivity inside Coq)")
 
 
